@@ -23,11 +23,12 @@ type tree struct {
 	selfFail  map[string]int       // member -> incarnation (1-based) that sends itself "fail" from Init and so dies at once
 	factories map[string]gen.ProcessFactory
 	childOpts map[string]gen.ProcessOptions // member -> process options written into its child spec
+	termOf    map[string][]string           // supervisor name -> reasons its Terminate callback was given
 	early     []string                      // owners whose Terminate callback ran for a shutdown while something they started was alive
 }
 
 func newTree(w *World) *tree {
-	return &tree{w: w, all: map[string][]gen.PID{}, children: map[string][]string{}, failInit: map[string]bool{}, selfFail: map[string]int{}, childOpts: map[string]gen.ProcessOptions{}}
+	return &tree{w: w, all: map[string][]gen.PID{}, children: map[string][]string{}, failInit: map[string]bool{}, selfFail: map[string]int{}, childOpts: map[string]gen.ProcessOptions{}, termOf: map[string][]string{}}
 }
 
 func (t *tree) record(name string, pid gen.PID) {
@@ -103,6 +104,7 @@ func (s *supB) HandleMessage(from gen.PID, m any) error {
 
 // Terminate: a supervisor that ends because it was asked to shut down has stopped everything it started by then
 func (s *supB) Terminate(reason error) {
+	s.t.termOf[s.name] = append(s.t.termOf[s.name], reason.Error())
 	if reason != gen.TerminateReasonShutdown {
 		return
 	}
